@@ -236,13 +236,20 @@ Proof.
   - split; intro; [apply HI; reflexivity | exact H].
 Qed.
 
+Lemma assert_not_reserved_none n : assert_not_reserved n = None <-> negb (is_reserved_var n) = true.
+Proof. unfold assert_not_reserved. destruct (is_reserved_var n); simpl; split; intro; auto; discriminate. Qed.
+Lemma assert_names_differ_none a b : assert_names_differ a b = None <-> negb (String.eqb a b) = true.
+Proof. unfold assert_names_differ. destruct (String.eqb a b); simpl; split; intro; auto; discriminate. Qed.
+
 Lemma schema_asserts_iff r :
   first_err (schema_asserts r) = None <->
   (match assert_schema_target_filename (gr_target r) with None => true | Some _ => false end)
-  && usable_name (gr_schema_var r) && usable_name (gr_type_map_var r) = true.
+  && usable_name (gr_schema_var r) && usable_name (gr_type_map_var r)
+  && negb (is_reserved_var (gr_schema_var r)) && negb (is_reserved_var (gr_type_map_var r))
+  && negb (String.eqb (gr_schema_var r) (gr_type_map_var r)) = true.
 Proof.
   unfold schema_asserts. rewrite first_err_none. repeat rewrite Forall_cons_iff.
-  rewrite !assert_identifier_none, !andb_true_iff.
+  rewrite !assert_identifier_none, !assert_not_reserved_none, assert_names_differ_none, !andb_true_iff.
   destruct (assert_schema_target_filename (gr_target r)); split; intro H; decompose [and] H;
     repeat split; auto; try discriminate; constructor.
 Qed.
@@ -327,10 +334,13 @@ Proof.
   destruct (first_err (schema_checks e r)) eqn:E.
   - rewrite HF in H. inversion H; subst. apply first_err_in in E.
     unfold schema_checks in E. apply in_app_or in E as [E|E]; [eapply base_checks_cls; eauto|].
-    simpl in E. destruct E as [E|[E|[E|[]]]].
+    simpl in E. destruct E as [E|[E|[E|[E|[E|[E|[]]]]]]].
     + eapply schema_target_cls; eauto.
     + eapply assert_identifier_cls; eauto.
     + eapply assert_identifier_cls; eauto.
+    + unfold assert_not_reserved in E. destruct (is_reserved_var _); inversion E; reflexivity.
+    + unfold assert_not_reserved in E. destruct (is_reserved_var _); inversion E; reflexivity.
+    + unfold assert_names_differ in E. destruct (String.eqb _ _); inversion E; reflexivity.
   - destruct HF as [c Hc]. congruence.
 Qed.
 
